@@ -141,10 +141,16 @@ func TestVerifC13(t *testing.T) {
 			o.verdict("C13", fmt.Sprintf("s%d_near%d", si, i), what == "", true, "near:"+hxs(v), map[string]interface{}{"what": what, "values_hex": vhexAll(values), "i": i})
 		}
 		// plant a verbatim copy of one value in unrelated text
-		for k := 0; k < 3; k++ {
+		for k := 0; k < 4; k++ {
 			vi := rr.intn(len(values))
 			v := values[vi]
 			pre, post := vfiller(rr, rr.intn(6)), vfiller(rr, rr.intn(6))
+			if k == 3 { // two (sometimes three) copies of the same value: each must be reported
+				pre = pre + " " + v + " " + vfiller(rr, 1+rr.intn(5))
+				if rr.chance(1, 3) {
+					post = vfiller(rr, 1+rr.intn(3)) + " " + v + " " + post
+				}
+			}
 			if k == 2 {
 				post = "" // copy at the very end
 			}
@@ -167,17 +173,21 @@ func TestVerifC13(t *testing.T) {
 					mm := newMatcher(normU, 0)
 					kv := &knownValue{key: "k", normalizedValue: normV, set: searchset.New(normV, searchset.DefaultGranularity)}
 					mm.findMatches(kv)
-					var ps []string
-					var offs []int
-					ext := map[int]int{}
+					var prs [][2]int
 					for mm.queue.Len() > 0 {
 						x := mm.queue.Pop().(*Match)
-						offs = append(offs, x.Offset)
-						ext[x.Offset] = x.Extent
+						prs = append(prs, [2]int{x.Offset, x.Extent})
 					}
-					sort.Ints(offs)
-					for _, of := range offs {
-						ps = append(ps, fmt.Sprintf("%d:%d", of, ext[of]))
+					// the queue orders by confidence; the model lists occurrences in text order
+					sort.Slice(prs, func(i, j int) bool {
+						if prs[i][0] != prs[j][0] {
+							return prs[i][0] < prs[j][0]
+						}
+						return prs[i][1] < prs[j][1]
+					})
+					var ps []string
+					for _, pr := range prs {
+						ps = append(ps, fmt.Sprintf("%d:%d", pr[0], pr[1]))
 					}
 					res = strings.Join(ps, " ")
 				}
@@ -203,7 +213,8 @@ func TestVerifC13(t *testing.T) {
 						// the registered text itself begins/ends with a blank: the copy is where that exact text occurs
 						off = strings.Index(normU, normV)
 					}
-					if off >= 0 && strings.TrimSpace(normV) == normV {
+					// every token-aligned copy, left to right, non-overlapping
+					for off >= 0 && strings.TrimSpace(normV) == normV && what == "" {
 						found := false
 						for _, m := range ms {
 							if m.Name == fmt.Sprintf("v%d", vi) && m.Confidence == 1.0 && m.Offset == off && m.Extent == len(normV) {
@@ -213,6 +224,11 @@ func TestVerifC13(t *testing.T) {
 						if !found {
 							what = fmt.Sprintf("value %d planted at byte %d (extent %d) of %q; MultipleMatch reported %s", vi, off, len(normV), normU, vshowMatches(ms))
 						}
+						next := strings.Index((" " + normU + " ")[off+len(normV)+1:], " "+normV+" ")
+						if next < 0 {
+							break
+						}
+						off = off + len(normV) + 1 + next
 					}
 				}
 			}
